@@ -21,6 +21,7 @@ func candidates() (int, int, int) {
 // its deployment, two probe subscribers (p1 subscribed twice), then two ticks with symbolic epochs and a
 // symbolic Alphabet signature; probe p2 refuses one symbolic epoch.
 func VerifC06Tick() {
+	vCommittee(vParam(2)) // committee size: the Alphabet is its 2n/3+1 account, the committee majority its n/2+1 one
 	vDeploy("netmap", false, nil, nil, nil, []any{})
 	vDeploy("balance", false, nil, nil)
 	vDeploy("probe1")
@@ -60,9 +61,12 @@ func VerifC06Tick() {
 	cur := 0
 	for i := 0; i < 2; i++ {
 		e := vInt("e1")
-		a := vBool("alphabetSigns1")
+		a, c := vBool("alphabetSigns1"), vBool("committeeMajoritySigns1")
 		if i == 1 {
-			e, a = vInt("e2"), vBool("alphabetSigns2")
+			e, a, c = vInt("e2"), vBool("alphabetSigns2"), vBool("committeeMajoritySigns2")
+		}
+		if vEq(vAlphabetAcct(), vCommitteeAcct()) { // committees of 1, 2 or 4: the two accounts coincide
+			a = a || c
 		}
 		vAssume(e >= -2 && e <= 1000)
 		preEpoch, preBlock := readInt("netmap", "epoch"), readInt("netmap", "lastEpochBlock")
@@ -71,6 +75,7 @@ func VerifC06Tick() {
 		preMap := len(pm.([]Node))
 		preP1, preP2 := readInt("probe1", "last"), readInt("probe2", "last")
 		vSign(vAlphabetAcct(), a)
+		vSign(vCommitteeAcct(), c) // the committee majority alone is not the Alphabet
 		done, _ := vInvoke("netmap", "newEpoch", e)
 		h := vHeight()
 		vAssert(done == (a && e > cur && e != bad), "C06/tick-succeeds-iff-alphabet-and-epoch-grows-and-no-subscriber-refuses")
